@@ -44,6 +44,24 @@ struct Model {
                 out.push_back(n);
                 return;
             case FULFILL:
+                if (o.r2 == 1) {
+                    // the value's copy constructor threw for one of the pending keys: the keys served before it are completed
+                    // with the value, the others are still pending (any proper subset of the pending keys; in which order
+                    // the keys are served is not specified)
+                    int pend[NKEYS], np = 0;
+                    for (int i = 0; i < NKEYS; i++)
+                        if (s.phase[i] == 1) pend[np++] = i;
+                    for (unsigned mask = 0; mask + 1 < (1u << np); mask++) {
+                        State m = s;
+                        for (int j = 0; j < np; j++)
+                            if (mask & (1u << j)) {
+                                m.phase[pend[j]] = 2;
+                                m.val[pend[j]] = static_cast<uint8_t>(o.b);
+                            }
+                        out.push_back(m);
+                    }
+                    return;
+                }
                 for (int i = 0; i < NKEYS; i++)
                     if (s.phase[i] == 1) {
                         n.phase[i] = 2;
@@ -140,8 +158,20 @@ static void run_thread(DO& d, int tid, const std::vector<POp>& script, std::vect
                     break;
                 case FULFILL: {
                     VX v(val_str(p.val));
-                    if (p.val % 2) d.fulfillAllPromises(v);
-                    else d.fulfillAllPromises(VX(val_str(p.val)));  // an rvalue: every pending promise still gets the value
+                    // the k-th copy of the value throws (see SET for TSan): the keys served so far are complete, the rest
+                    // stays pending, and the container goes on working for all of them
+                    const bool inject = p.inject && !VRF_TSAN;
+                    if (inject) vrf::fault_arm(1u << 1, 1 + p.key % 3, (p.val % 2) == 1);
+                    try {
+                        if (p.val % 2 || inject) d.fulfillAllPromises(v);
+                        else d.fulfillAllPromises(VX(val_str(p.val)));  // an rvalue: every pending promise still gets the value
+                    }
+                    catch (const vrf::Injected&) {
+                        o.r2 = 1;
+                        vrf::count("fulfillAllPromises_calls_with_a_throwing_copy");
+                    }
+                    if (inject) vrf::fault_disarm();
+                    if (vrf::held_count() != 0) vrf::violation("oracle:lock_not_released_after_throw", "{\"op\":\"fulfillAllPromises\"}");
                     break;
                 }
                 case FINISH:
@@ -168,12 +198,47 @@ static void run_thread(DO& d, int tid, const std::vector<POp>& script, std::vect
     }
 }
 
+// payloads without a constructor: a future still pending when the container dies receives a default-constructed - that is,
+// value-initialised - X: 0, nullptr, all-zero fields, whatever the stack held a moment before
+struct PodPayload {
+    int a;
+    double b;
+    const char* c;
+};
+template<class X, class IsDefault>
+static void default_value_case(long r, const char* what, IsDefault is_default)
+{
+    std::future<X> f1, f2, f3;
+    vrf::run_checked(r, [&] {
+        volatile unsigned char dirt[256];  // something non-zero on the stack the destructor is about to use
+        for (auto& d : dirt) d = 0x5a;
+        DelayedObjects<X> d;
+        f1 = d.getFuture(7);
+        f2 = d.getFuture(std::string("pending"));
+        f3 = d.getFuture(8);
+        d.setDelayedValue(8, X{});
+    });
+    for (auto* f : {&f1, &f2, &f3}) {
+        if (!vrf::is_ready(*f)) vrf::violation("oracle:future_not_ready_after_destruction", std::string("{\"payload\":\"") + what + "\"}");
+        X v = f->get();
+        if (!is_default(v)) vrf::violation("oracle:future_of_a_key_pending_at_destruction_holds_a_non_default_value", std::string("{\"payload\":\"") + what + "\"}");
+    }
+    vrf::count("default_value_cases");
+}
+static void default_value_round(long r)
+{
+    default_value_case<int>(r, "int", [](int v) { return v == 0; });
+    default_value_case<const char*>(r, "const char*", [](const char* v) { return v == nullptr; });
+    default_value_case<PodPayload>(r, "struct without constructor", [](const PodPayload& v) { return v.a == 0 && v.b == 0.0 && v.c == nullptr; });
+}
+
 int main(int argc, char** argv)
 {
     vrf::init(argc, argv, "C18");
     bool seq = vrf::cfg.mode == "seq";
     for (long r = 0; r < vrf::cfg.rounds; r++) {
         if (!vrf::want_round(r)) continue;
+        if (r % 16 == 0) default_value_round(r);
         vrf::Round R(r);
         auto& rng = R.rng;
         int nt = seq ? 1 : static_cast<int>(rng.range(2, 4));
@@ -207,6 +272,7 @@ int main(int argc, char** argv)
                 } else if (k < 50) {
                     p.op = FULFILL;
                     p.val = next_val++;
+                    p.inject = rng.chance(30);
                 } else if (k < 62) p.op = FINISH;
                 else if (k < 76) p.op = ISREC;
                 else if (k < 90) p.op = ISCOMP;
